@@ -71,3 +71,75 @@ def build_req(ann, name, text, idx=None):
     if idx is not None:
         r["index"] = idx
     return r
+
+
+_VALID_CACHE = {}
+
+
+def valid_texts(ann, name, rng):
+    """Texts of the pool the implementation currently accepts for this column
+    (used for *generation* of mostly-valid lines only, never for a verdict)."""
+    key = (ann, name)
+    if key not in _VALID_CACHE:
+        sch = impl.scheme_by_annotation(ann)
+        cls = sch.column_class(name)
+        ok = []
+        for t in pool_for(cls, rng):
+            if "\t" in t or "\n" in t or "\r" in t or dontcare_numeric(t) or dontcare_uuid(t):
+                continue
+            try:
+                col = cls.build(name=name, value=t)
+                if not col.validate():
+                    ok.append(t)
+            except Exception:  # noqa
+                pass
+        _VALID_CACHE[key] = ok or [""]
+    return _VALID_CACHE[key]
+
+
+def valid_fields(ann, rng, prefer_nonnull=0.7):
+    sch = impl.scheme_by_annotation(ann)
+    out = []
+    for name in sch.column_names():
+        vt = valid_texts(ann, name, rng)
+        nn = [t for t in vt if t]
+        if nn and rng.random() < prefer_nonnull:
+            out.append(rng.choice(nn))
+        else:
+            out.append(rng.choice(vt))
+    return out
+
+
+def line_cases(ann, rng, n):
+    """Whole-line cases: valid, k perturbed fields, wrong field counts."""
+    sch = impl.scheme_by_annotation(ann)
+    names = sch.column_names()
+    cases = []
+    for _ in range(n):
+        fields = valid_fields(ann, rng)
+        kind = rng.random()
+        if kind < 0.25:
+            pass
+        elif kind < 0.75:
+            for _k in range(rng.choice([1, 1, 1, 2, 3])):
+                i = rng.randrange(len(fields))
+                cls = sch.column_class(names[i])
+                pool = [t for t in pool_for(cls, rng) if "\t" not in t]
+                if rng.random() < 0.95:   # keep most lines inside the modelled zone
+                    pool = [t for t in pool if not dontcare_numeric(t) and not dontcare_uuid(t)]
+                fields[i] = rng.choice(pool)
+        elif kind < 0.85:
+            k = rng.choice([1, 1, 2, len(fields) - 1, len(fields)])
+            fields = fields[:len(fields) - k]
+        elif kind < 0.95:
+            fields = fields + [rng.choice(["", "x", "1"])] * rng.choice([1, 2])
+        else:
+            fields[-1] = fields[-1] + rng.choice(["\n", "\r\n", "\r", "\n\n"])
+        cases.append("\t".join(fields))
+    return cases
+
+
+def from_line_req(ann, line, mode, lineno):
+    pieces = line.rstrip("\r\n").split("\t")
+    return {"op": "rec.from_line", "scheme": ann, "line": line, "mode": mode, "lineno": lineno,
+            "floats": float_table(pieces)}
